@@ -238,12 +238,13 @@ def openRound (e : EP) (r : OpenReq) : EP × List Ev :=
     | none => ({ e with opens := e.opens.filter (·.req ≠ r.req) }, [.openDone r.req .rejected])
     | some (fid, rng', fb') =>
       let r' := { r with retriesLeft := r.retriesLeft - 1 }
-      let e := { e with rng := rng', fallback := fb', flows := insert e.flows fid (.requested r.req),
-                        opens := r' :: e.opens.filter (·.req ≠ r.req) }
       if e.outClosed then
-        -- `tx_msg_tx.send` fails: the call returns `Closed`; the slot stays until teardown drains it
-        ({ e with opens := e.opens.filter (·.req ≠ r.req) }, [.openDone r.req .closed])
+        -- `tx_msg_tx.send` fails: the slot just inserted is removed again and the call returns
+        -- `Closed` (lib.rs `new_stream_channel`; before the fix the slot stayed in the dead table)
+        ({ e with rng := rng', fallback := fb', opens := e.opens.filter (·.req ≠ r.req) }, [.openDone r.req .closed])
       else
+        let e := { e with rng := rng', fallback := fb', flows := insert e.flows fid (.requested r.req),
+                          opens := r' :: e.opens.filter (·.req ≠ r.req) }
         (e.enqFrame (.connect fid e.opts.rwnd r.port r.host), [])
 
 /-- The open future is told "rejected" (`stream_rx` yields `None`). The future is a separate task:
@@ -675,9 +676,8 @@ def appBindReq (e : EP) (req : Nat) (bt : BindType) (host : Bytes) (port : Nat) 
   | none => (e, [.bindDone req .closed])
   | some (fid, rng', fb') =>
     if e.outClosed then
-      -- `tx_msg_tx.send` fails: the call returns `Closed` at once. (The real table keeps the
-      -- `BindRequested` slot until the wind-down drains it, but its oneshot receiver is gone with the
-      -- caller, so nothing observable depends on it any more; the model does not keep it.)
+      -- `tx_msg_tx.send` fails: the slot just inserted is removed again and the call returns `Closed`
+      -- (lib.rs `request_bind`)
       ({ e with rng := rng', fallback := fb' }, [.bindDone req .closed])
     else
       (({ e with rng := rng', fallback := fb', flows := insert e.flows fid (.bindRequested req) } : EP).enqFrame
